@@ -92,6 +92,7 @@ type Sched struct {
 	SitePark []uint32 // per site: number of times a task parked there
 	Trace    func(task string, site int)
 
+	Tickers    []*SimTicker
 	WallOffset time.Duration // added to Now() (forward clock steps)
 	idCounter  int64
 	abandoned  bool
@@ -666,4 +667,66 @@ func less(a, b reflect.Value) bool {
 		return a.Uint() < b.Uint()
 	}
 	return fmt.Sprint(a.Interface()) < fmt.Sprint(b.Interface())
+}
+
+// SimTicker is a ticker whose ticks are delivered by the simulator (one at a time, in an order it chooses),
+// so that a goroutine blocked in a multi-way select is never completed by "whichever runtime timer fired
+// first" — which is not a decision the simulator owns.
+type SimTicker struct {
+	C       chan time.Time
+	Period  time.Duration
+	Next    time.Time
+	Site    int
+	T       *time.Ticker
+}
+
+// NewTicker replaces time.NewTicker in instrumented code.
+func NewTicker(d time.Duration) *time.Ticker {
+	s := cur.Load()
+	if s == nil || s.free {
+		return time.NewTicker(d)
+	}
+	ch := make(chan time.Time, 1)
+	tk := &time.Ticker{C: ch}
+	s.mu.Lock()
+	s.Tickers = append(s.Tickers, &SimTicker{C: ch, Period: d, Next: time.Now().Add(d), T: tk})
+	s.mu.Unlock()
+	return tk
+}
+
+// DueTickers returns the simulated tickers whose next tick is due at or before now, in creation order.
+func (s *Sched) DueTickers(now time.Time) []*SimTicker {
+	s.mu.Lock()
+	defer s.mu.Unlock()
+	var out []*SimTicker
+	for _, t := range s.Tickers {
+		if !t.Next.After(now) {
+			out = append(out, t)
+		}
+	}
+	return out
+}
+
+// NextTick returns the earliest pending tick time (zero if there are no tickers).
+func (s *Sched) NextTick() time.Time {
+	s.mu.Lock()
+	defer s.mu.Unlock()
+	var best time.Time
+	for _, t := range s.Tickers {
+		if best.IsZero() || t.Next.Before(best) {
+			best = t.Next
+		}
+	}
+	return best
+}
+
+// Fire delivers one tick (dropped if the previous one has not been consumed, like a real ticker).
+func (t *SimTicker) Fire(now time.Time) {
+	select {
+	case t.C <- now:
+	default:
+	}
+	for !t.Next.After(now) {
+		t.Next = t.Next.Add(t.Period)
+	}
 }
